@@ -1,3 +1,4 @@
+import Chartparse.Proofs.RenderProofs
 import Chartparse.Proofs.C18Proofs
 /-! Property theorems of C18 (statements only; helper lemmas live in `Proofs/`). -/
 namespace Chartparse.Props.C18
@@ -13,5 +14,20 @@ theorem C18_total_path :
     ∀ (decoded : Str) (want : Option (List (Nat × Nat))),
     NI (parsePath decoded want) :=
   @Chartparse.parsePath_ni
+
+/-- every modelled rendering of every chart succeeds or fails with a documented class — never an internal error -/
+theorem C18_render_partial :
+    ∀ (c : Chart) (tracks : List RoutedTrack),
+    NI (Render.renderAll c tracks) :=
+  @Chartparse.Render.renderAll_ni
+
+/-- the state-letter table covers every `HOPOState` member (obligation on the regenerated enum) -/
+theorem gen_hopo_letters :
+    Render.hopoLetter .strum = .ok (cp "S") ∧ Render.hopoLetter .hopo = .ok (cp "H") ∧ Render.hopoLetter .tap = .ok (cp "T") :=
+  @Chartparse.Render.hopoLetter_ok
+
+/-- non-vacuity: the docstring example of NoteEvent — tick 816 at 2.09375 s, yellow, HOPO -/
+example : (Render.noteEvStr ⟨816, 2093750, 2093750, 0, [false, false, true, false, false], .ticks 0, .hopo, none⟩).toOption =
+    some (cp "NoteEvent(t@0000816): 0:00:02.093750: sustain=0: Note.Y [hopo_state=H]") := by decide
 
 end Chartparse.Props.C18
